@@ -135,3 +135,10 @@ META["C15"] = dict(
           "fault positions for the generated scenarios, sampled over scenarios. Crashes, leaks, non-propagated failures and "
           "wrong-but-reported-success results are violations."),
     note="Trusted: allocation shims (buildsys/vf_alloc.c), ASan. Fault positions are exhaustive per scenario; scenarios are a sample.")
+META["C16"] = dict(
+    technique="property-based testing (rapidcheck) of generated multi-threaded workloads: differential oracle against single-threaded execution on the plain build + ThreadSanitizer as race oracle on an instrumented build",
+    design_ref="§4 C16",
+    text=("Generated workloads of 2-16 barrier-started threads drawing on private destinations from shared read-only and private "
+          "sources; per-thread digests must equal single-threaded execution, and the ThreadSanitizer build must report no race. "
+          "Inputs are generated and shrunk; interleavings are sampled by repetition, not enumerated."),
+    note="Trusted: ThreadSanitizer (clang 14) and pthread barriers. A race on a path no generated workload executes is missed.")
